@@ -183,4 +183,180 @@ theorem bragg_reflectivity (κ0 B : ℝ) (p P : ℝ → ℝ)
   refine ⟨e, ?_⟩
   rw [e, norm_mul, norm_I, one_mul, Complex.norm_real, Real.norm_eq_abs, sq_abs]
 
+/-! ### the uniform grating: constant σ ≡ d (detuning), κ ≡ k -/
+
+/-- stop-band shape: with d = c₁g, k = c₂g, c₂² − c₁² = 1:
+    R = cosh(g(b−z)) − j c₁ sinh(g(b−z)), S = j c₂ sinh(g(b−z)) solve the system -/
+theorem uniform_hyp_solution (g c1 c2 : ℝ) (hcc : c2 * c2 - c1 * c1 = 1) :
+    Solves (fun _ => c1 * g) (fun _ => c2 * g) a b
+      (fun z => ((Real.cosh (g * (b - z)) : ℝ) : ℂ) - I * ((c1 * Real.sinh (g * (b - z)) : ℝ) : ℂ))
+      (fun z => I * ((c2 * Real.sinh (g * (b - z)) : ℝ) : ℂ)) := by
+  have hu : ∀ z, HasDerivWithinAt (fun z => g * (b - z)) (g * (0 - 1)) (Icc a b) z := by
+    intro z
+    exact ((hasDerivWithinAt_const z _ b).sub (hasDerivWithinAt_id z _)).const_mul g
+  have hccC : (c2 : ℂ) * c2 - c1 * c1 = 1 := by exact_mod_cast hcc
+  constructor
+  · intro z _
+    have := ((hu z).cosh.ofReal_comp).sub ((((hu z).sinh.const_mul c1).ofReal_comp).const_mul I)
+    refine this.congr_deriv ?_
+    push_cast
+    linear_combination ((g : ℂ) * Complex.sinh ((g : ℂ) * ((b : ℂ) - (z : ℂ))) * ((c1 : ℂ) * c1 - c2 * c2)) * I_mul_I
+      + ((g : ℂ) * Complex.sinh ((g : ℂ) * ((b : ℂ) - (z : ℂ)))) * hccC
+  · intro z _
+    have := (((hu z).sinh.const_mul c2).ofReal_comp).const_mul I
+    refine this.congr_deriv ?_
+    push_cast
+    ring
+
+/-- pass-band shape: with d = c₁q, k = c₂q, c₁² − c₂² = 1:
+    R = cos(q(b−z)) − j c₁ sin(q(b−z)), S = j c₂ sin(q(b−z)) solve the system -/
+theorem uniform_trig_solution (q c1 c2 : ℝ) (hcc : c1 * c1 - c2 * c2 = 1) :
+    Solves (fun _ => c1 * q) (fun _ => c2 * q) a b
+      (fun z => ((Real.cos (q * (b - z)) : ℝ) : ℂ) - I * ((c1 * Real.sin (q * (b - z)) : ℝ) : ℂ))
+      (fun z => I * ((c2 * Real.sin (q * (b - z)) : ℝ) : ℂ)) := by
+  have hu : ∀ z, HasDerivWithinAt (fun z => q * (b - z)) (q * (0 - 1)) (Icc a b) z := by
+    intro z
+    exact ((hasDerivWithinAt_const z _ b).sub (hasDerivWithinAt_id z _)).const_mul q
+  have hccC : (c1 : ℂ) * c1 - c2 * c2 = 1 := by exact_mod_cast hcc
+  constructor
+  · intro z _
+    have := ((hu z).cos.ofReal_comp).sub ((((hu z).sin.const_mul c1).ofReal_comp).const_mul I)
+    refine this.congr_deriv ?_
+    push_cast
+    linear_combination ((q : ℂ) * Complex.sin ((q : ℂ) * ((b : ℂ) - (z : ℂ))) * ((c1 : ℂ) * c1 - c2 * c2)) * I_mul_I
+      - ((q : ℂ) * Complex.sin ((q : ℂ) * ((b : ℂ) - (z : ℂ)))) * hccC
+  · intro z _
+    have := (((hu z).sin.const_mul c2).ofReal_comp).const_mul I
+    refine this.congr_deriv ?_
+    push_cast
+    ring
+
+/-- band edge d² = k²: R = 1 − j d (b−z), S = j k (b−z) -/
+theorem uniform_edge_solution (d k : ℝ) (hdk : d * d = k * k) :
+    Solves (fun _ => d) (fun _ => k) a b
+      (fun z => (1 : ℂ) - I * ((d * (b - z) : ℝ) : ℂ)) (fun z => I * ((k * (b - z) : ℝ) : ℂ)) := by
+  have hu : ∀ (c : ℝ) z, HasDerivWithinAt (fun z => c * (b - z)) (c * (0 - 1)) (Icc a b) z := by
+    intro c z
+    exact ((hasDerivWithinAt_const z _ b).sub (hasDerivWithinAt_id z _)).const_mul c
+  have hC : (d : ℂ) * d = k * k := by exact_mod_cast hdk
+  constructor
+  · intro z _
+    have := (hasDerivWithinAt_const z (Icc a b) (1 : ℂ)).sub (((hu d z).ofReal_comp).const_mul I)
+    refine this.congr_deriv ?_
+    push_cast
+    linear_combination (I * I * ((b : ℂ) - z)) * hC
+  · intro z _
+    have := ((hu k z).ofReal_comp).const_mul I
+    refine this.congr_deriv ?_
+    push_cast
+    ring
+
+theorem normSq_sub_I_mul (x y : ℝ) : ‖(x : ℂ) - I * (y : ℂ)‖ ^ 2 = x ^ 2 + y ^ 2 := by
+  rw [Complex.sq_norm, normSq_apply]
+  simp
+  ring
+
+theorem normSq_I_mul (y : ℝ) : ‖I * (y : ℂ)‖ ^ 2 = y ^ 2 := by
+  rw [norm_mul, norm_I, one_mul, Complex.norm_real, Real.norm_eq_abs, sq_abs]
+
+private theorem bound_const (d k : ℝ) : (∀ z ∈ Icc a b, |(fun _ : ℝ => d) z| ≤ |d| + |k|) ∧
+    (∀ z ∈ Icc a b, |(fun _ : ℝ => k) z| ≤ |d| + |k|) :=
+  ⟨fun _ _ => le_add_of_nonneg_right (abs_nonneg k), fun _ _ => le_add_of_nonneg_left (abs_nonneg d)⟩
+
+/-- inside the stop band |d| < k, g = √(k² − d²): every solution with R(b)=1, S(b)=0 has
+    |ρ(a)|² = sinh²(gℓ)/(cosh²(gℓ) − d²/k²), ℓ = b − a -/
+theorem uniform_stopband (d k : ℝ) (hdk : |d| < k) (hab : a ≤ b)
+    (h : Solves (fun _ => d) (fun _ => k) a b R S) (hR : R b = 1) (hS : S b = 0) :
+    ‖S a / R a‖ ^ 2 = Real.sinh (Real.sqrt (k ^ 2 - d ^ 2) * (b - a)) ^ 2
+      / (Real.cosh (Real.sqrt (k ^ 2 - d ^ 2) * (b - a)) ^ 2 - d ^ 2 / k ^ 2) := by
+  have hk : 0 < k := (abs_nonneg d).trans_lt hdk
+  have hpos : 0 < k ^ 2 - d ^ 2 := by
+    have := abs_lt.mp hdk; nlinarith
+  set g := Real.sqrt (k ^ 2 - d ^ 2) with hg
+  have hg0 : 0 < g := Real.sqrt_pos.mpr hpos
+  have hg2 : g * g = k ^ 2 - d ^ 2 := Real.mul_self_sqrt hpos.le
+  have hcc : k / g * (k / g) - d / g * (d / g) = 1 := by
+    field_simp; nlinarith
+  have hsol := uniform_hyp_solution (a := a) (b := b) g (d / g) (k / g) hcc
+  have e1 : d / g * g = d := by field_simp
+  have e2 : k / g * g = k := by field_simp
+  rw [e1, e2] at hsol
+  obtain ⟨hb1, hb2⟩ := bound_const (a := a) (b := b) d k
+  have hu := unique (|d| + |k|) hb1 hb2 h hsol (by simp [hR]) (by simp [hS]) a ⟨le_rfl, hab⟩
+  rw [hu.1, hu.2, norm_div, div_pow]
+  push_cast
+  have := normSq_sub_I_mul (Real.cosh (g * (b - a))) (d / g * Real.sinh (g * (b - a)))
+  have hn := normSq_I_mul (k / g * Real.sinh (g * (b - a)))
+  push_cast at this hn
+  rw [this, hn]
+  have hch := Real.cosh_sq (g * (b - a))
+  have hden : Real.cosh (g * (b - a)) ^ 2 - d ^ 2 / k ^ 2 ≠ 0 := by
+    have : d ^ 2 / k ^ 2 < 1 := by rw [div_lt_one (by positivity)]; nlinarith
+    have : 1 ≤ Real.cosh (g * (b - a)) ^ 2 := by nlinarith [Real.one_le_cosh (g * (b - a))]
+    intro h0; linarith
+  have hden2 : Real.cosh (g * (b - a)) ^ 2 + (d / g * Real.sinh (g * (b - a))) ^ 2 ≠ 0 := by
+    have : 1 ≤ Real.cosh (g * (b - a)) ^ 2 := by nlinarith [Real.one_le_cosh (g * (b - a))]
+    intro h0; nlinarith [sq_nonneg (d / g * Real.sinh (g * (b - a)))]
+  rw [div_eq_div_iff hden2 hden]
+  field_simp
+  rw [hch]
+  have hg2' : g ^ 2 = k ^ 2 - d ^ 2 := by rw [sq]; exact hg2
+  linear_combination (-(Real.sinh (g * (b - a)) ^ 2 * (Real.sinh (g * (b - a)) ^ 2 + 1))) * hg2'
+
+/-- outside the stop band |d| > k > 0, q = √(d² − k²): |ρ(a)|² = sin²(qℓ)/(d²/k² − cos²(qℓ)) -/
+theorem uniform_passband (d k : ℝ) (hk : 0 < k) (hdk : k < |d|) (hab : a ≤ b)
+    (h : Solves (fun _ => d) (fun _ => k) a b R S) (hR : R b = 1) (hS : S b = 0) :
+    ‖S a / R a‖ ^ 2 = Real.sin (Real.sqrt (d ^ 2 - k ^ 2) * (b - a)) ^ 2
+      / (d ^ 2 / k ^ 2 - Real.cos (Real.sqrt (d ^ 2 - k ^ 2) * (b - a)) ^ 2) := by
+  have hpos : 0 < d ^ 2 - k ^ 2 := by
+    have : k ^ 2 < |d| ^ 2 := by nlinarith
+    rw [sq_abs] at this; linarith
+  set q := Real.sqrt (d ^ 2 - k ^ 2) with hq
+  have hq0 : 0 < q := Real.sqrt_pos.mpr hpos
+  have hq2 : q * q = d ^ 2 - k ^ 2 := Real.mul_self_sqrt hpos.le
+  have hcc : d / q * (d / q) - k / q * (k / q) = 1 := by
+    field_simp; nlinarith
+  have hsol := uniform_trig_solution (a := a) (b := b) q (d / q) (k / q) hcc
+  have e1 : d / q * q = d := by field_simp
+  have e2 : k / q * q = k := by field_simp
+  rw [e1, e2] at hsol
+  obtain ⟨hb1, hb2⟩ := bound_const (a := a) (b := b) d k
+  have hu := unique (|d| + |k|) hb1 hb2 h hsol (by simp [hR]) (by simp [hS]) a ⟨le_rfl, hab⟩
+  rw [hu.1, hu.2, norm_div, div_pow]
+  push_cast
+  have := normSq_sub_I_mul (Real.cos (q * (b - a))) (d / q * Real.sin (q * (b - a)))
+  have hn := normSq_I_mul (k / q * Real.sin (q * (b - a)))
+  push_cast at this hn
+  rw [this, hn]
+  have hcs := Real.sin_sq_add_cos_sq (q * (b - a))
+  have hden : d ^ 2 / k ^ 2 - Real.cos (q * (b - a)) ^ 2 ≠ 0 := by
+    have : 1 < d ^ 2 / k ^ 2 := by rw [one_lt_div (by positivity)]; linarith
+    have : Real.cos (q * (b - a)) ^ 2 ≤ 1 := by nlinarith [sq_nonneg (Real.sin (q * (b - a)))]
+    intro h0; linarith
+  have hden2 : Real.cos (q * (b - a)) ^ 2 + (d / q * Real.sin (q * (b - a))) ^ 2 ≠ 0 := by
+    have hc1 : 1 ≤ (d / q) ^ 2 := by nlinarith [mul_self_nonneg (k / q)]
+    have : Real.sin (q * (b - a)) ^ 2 ≤ (d / q * Real.sin (q * (b - a))) ^ 2 := by
+      rw [mul_pow]; nlinarith [sq_nonneg (Real.sin (q * (b - a)))]
+    intro h0; linarith
+  rw [div_eq_div_iff hden2 hden]
+  field_simp
+  have hq2' : q ^ 2 = d ^ 2 - k ^ 2 := by rw [sq]; exact hq2
+  linear_combination (-(Real.sin (q * (b - a)) ^ 2 * d ^ 2)) * hcs
+    + (-(Real.sin (q * (b - a)) ^ 2 * Real.cos (q * (b - a)) ^ 2)) * hq2'
+
+/-- at the band edge d² = k²: |ρ(a)|² = k²ℓ²/(1 + k²ℓ²) -/
+theorem uniform_edge (d k : ℝ) (hdk : d * d = k * k) (hab : a ≤ b)
+    (h : Solves (fun _ => d) (fun _ => k) a b R S) (hR : R b = 1) (hS : S b = 0) :
+    ‖S a / R a‖ ^ 2 = (k * (b - a)) ^ 2 / (1 + (k * (b - a)) ^ 2) := by
+  have hsol := uniform_edge_solution (a := a) (b := b) d k hdk
+  obtain ⟨hb1, hb2⟩ := bound_const (a := a) (b := b) d k
+  have hu := unique (|d| + |k|) hb1 hb2 h hsol (by simp [hR]) (by simp [hS]) a ⟨le_rfl, hab⟩
+  rw [hu.1, hu.2, norm_div, div_pow]
+  have := normSq_sub_I_mul 1 (d * (b - a))
+  have hn := normSq_I_mul (k * (b - a))
+  push_cast at this hn ⊢
+  rw [this, hn]
+  congr 1
+  linear_combination ((b - a) ^ 2) * hdk
+
 end OptiVerif.FbgOde
